@@ -194,6 +194,13 @@ def listener(rep, dbg, vm):
             # the test `if let Some(listener) = self.listener` must come before any parsing work
             test_i = hirq.index_of(ev, lambda e: e.kind == "cond" and kind(e.node) == "LetExpr"
                                    and "listener" in hirq.expr_text(e.node["init"]))
+            if test_i < 0:
+                # the test spelled with a combinator (`self.listener.as_ref().is_some_and(|listener| listener(..))`, a
+                # match in the desugared view) or a `match self.listener { .. }`
+                test_i = hirq.index_of(ev, lambda e: e.kind == "arm" and any(
+                    kind(y) == "Field" and y["name"] == "listener" for y in walk(e.node.get("scrut") or {})))
+            if test_i < 0 and li >= 0:
+                test_i = li
             work = [i for i, e in enumerate(ev) if e.kind == "call" and isinstance(callee(e.node), str)
                     and callee(e.node).startswith(("pest::parser_state::ParserState::", "pest_vm::Vm::"))
                     and callee(e.node) != "pest::parser_state::ParserState::position"]
@@ -209,7 +216,16 @@ def listener(rep, dbg, vm):
             if before:
                 bad_first = True
             # truth of the listener's answer
-            ci = hirq.index_of(ev[li:], lambda e: e.kind == "cond" and e.node is ev[li].node)
+            lets_pr = hirq.lets(pr["body"])
+
+            def is_answer(nd):
+                nd = peel(nd)
+                if nd is ev[li].node:
+                    return True
+                if kind(nd) == "Path" and nd.get("res") == "local" and nd["id"] in lets_pr and lets_pr[nd["id"]][0] is not None:
+                    return any(y is ev[li].node for y in walk(lets_pr[nd["id"]][0]))
+                return False
+            ci = hirq.index_of(ev[li:], lambda e: e.kind == "cond" and is_answer(e.node))
             if ci >= 0 and ev[li + ci].extra is True:
                 after = [e for e in ev[li + ci + 1:] if e.kind == "call" and isinstance(callee(e.node), str)
                          and callee(e.node).startswith("pest::parser_state::ParserState::")
